@@ -19,22 +19,27 @@ LEVEL = "proof"
 PROPS = "PdshVerif.Props.C18"
 MANIFEST = dict(
     engine="opt",
-    technique="Lean 4 proof (model of opt_default/opt_env/getopt/opt_args/opt_verify and of the C numeric conversions; "
-              "precedence, independence, refusal of bad values, fanout >= 1) + differential correspondence of the real "
-              "pdsh/pdcp binaries against the compiled model + specification oracle on the real -q dump / exit status",
+    technique="Lean 4 proof (model of main as a whole: opt_default/opt_env/getopt/opt_args_early/opt_args incl. the assembly "
+              "of the remote command, opt_verify, main's decision what to start; the C numeric conversions; precedence, "
+              "independence, refusal of bad values, fanout >= 1 composed with the fan-out LTS of C03) + differential "
+              "correspondence of the real pdsh/pdcp/rpdcp binaries against the compiled model + specification oracle on the "
+              "real -q dump / exit status / real runs",
     text="Theorems in lean/PdshVerif/Props/C18.lean about the model Opt/Settings.lean: every setting equals the conversion "
-         "of command line <|> environment <|> default (all option orders, any other options present), bad values are "
-         "refused and an accepted fanout is >= 1 in the repaired variant, valid settings are accepted and take exactly the "
-         "value written (accepts_valid, takes_value_given), values given per target in -w words are checked too, with "
-         "kernel-checked counterexamples for the unchanged code (-f 0, FANOUT=, -f -1, -f 4294967297, -t -4294967295, "
-         "over-long user@, -M after a module option with argument). The model is executed against the real "
-         "binaries on generated environment x argument combinations; the real observations are judged by Opt/Spec.lean.",
+         "of command line <|> environment <|> default (all option orders and spellings, any other options present, every "
+         "personality), for every row of the option / environment table that harness/consts/optable.c DERIVES FROM THE "
+         "BEHAVIOUR of the opt.c under test (getopt and getenv interposed, experiments in forked children); bad values are "
+         "refused with status 1 before anything is started and an accepted fanout is >= 1 (no deadlock of the dispatcher: "
+         "C03.progress imported); valid settings are accepted and take exactly the value written; the remote command is the "
+         "operands joined by blanks, the prompt loop is entered exactly when there is none; pdsh has no -e, pdcp/rpdcp no "
+         "-S/-k; kernel-checked counterexamples for the unchanged code. The model is executed against the real binaries on "
+         "generated environment x argument combinations (table-driven deterministic classes + random); the real observations "
+         "are judged by Opt/Spec.lean; refusals are classified by the kind of bad input, never by message wording.",
     design_ref="DESIGN.md section 5 C18, section 6 D4 D5",
     note="Lean 4.33 kernel; axioms propext/Classical.choice/Quot.sound at most (audited per theorem every run); hand-written "
          "model tied to opt.c/main.c by differential execution of binaries built from /repo's working tree plus constants "
-         "regenerated from /repo (defaults, rcmd ranking; getopt strings compared textually); glibc strtoul/strtol/atoi/"
-         "getopt modelled not verified; WCOLL, DSHPATH, module-provided options, -z/-Z outside the model; generators, "
-         "gcc trusted")
+         "regenerated from /repo (defaults, rcmd ranking, option strings and option/variable table by behavioural probe); "
+         "glibc strtoul/strtol/atoi/getopt modelled not verified; WCOLL, DSHPATH, -w - (stdin), what module option handlers "
+         "do outside the model; generators, gcc trusted")
 
 NUMS = ["", "0", "1", "2", "7", "32", "100", "2147483647", "2147483648", "2147483649", "4294967295", "4294967296",
         "4294967297", "4294967306", "9223372036854775807", "9223372036854775808", "18446744073709551615",
@@ -666,7 +671,14 @@ def run(ctx):
                    "operands; correspondence only); (E) module selection through -L with the conflicting test modules A/B; "
                    "(G) -w words [rcmd_type:][user@]hosts with loaded/unknown transports, short/over-long users, a malformed prefix; "
                    "(H) options registered by modules (-a, -g NAME of the test modules A/B/G) before and after -M; "
-                   "(F) real `-R exec` runs with a 5 s limit for accepted configuration classes; non-trivial = at least one "
+                   "(F) real `-R exec` runs for accepted configuration classes and refused ones (trace file: nothing contacted), "
+                   "runs without a command (prompt loop: stdin at end of file / one command line); "
+                   "(T) deterministic, driven by the table derived from the behaviour of opt.c: every valued setting x personality x "
+                   "{absent, command line, variable, both, twice (both orders), twice + variable, valid over hostile and back, too small "
+                   "on either side, too small next to every flag / every other valued option}, every flag once and twice; user names "
+                   "at LOGIN_NAME_MAX-2..+2 (-l and user@), structurally bad command lines one kind each; "
+                   "(W) remote command words (option-like, empty, blank-containing, `--`) vs the listing's Command / Infile(s) / Outfile; "
+                   "refusals are classified by the kind of bad INPUT (evidence refusal_kinds), never by message wording; non-trivial = at least one "
                    "setting given by option or variable; distinct = distinct (personality, environment, argv)"}
     dist = {"single": 0, "combo": 0, "orders": 0, "syntax": 0, "misc": 0, "runs": 0, "accepted": 0, "rejected": 0,
             "hang": 0, "info_exit": 0, "pers": {"dsh": 0, "pdcp": 0, "rpdcp": 0}, "classes": {}}
@@ -1136,10 +1148,11 @@ def run(ctx):
                      "argument and variable texts are 7-bit ASCII without NUL",
                      "glibc getopt with POSIXLY_CORRECT, strtoul, strtol, atoi as modelled in Opt/Settings.lean, Base/CInt.lean",
                      "pdcp/rpdcp operands name existing files (a regular source file, a destination directory)",
-                     "-z/-Z (pdcp server/client modes), -T, -x, -w expressions other than a plain host list are outside the model"],
+                     "-T, -x, -w expressions other than a plain host list, `-w -` are outside the model; -z/-Z/-y: correspondence only"],
         trusted_base=["Lean 4.33 kernel", "axioms: propext, Classical.choice, Quot.sound at most (audited per theorem)",
                       "hand-written model Opt/Settings.lean tied to opt.c/main.c by differential execution of the built binaries",
-                      "Gen/Dsh.lean, Gen/Opt.lean regenerated from /repo (defaults, rcmd ranking); getopt strings compared textually",
+                      "Gen/Dsh.lean, Gen/Opt.lean, Gen/Optable.lean regenerated from /repo (defaults, rcmd ranking; option strings and the "
+                      "option / variable table by a behavioural probe: harness/consts/optable.c)",
                       "checks/c18.py (generator, dump parser), setpriv, gcc/make"],
         checker_cmd="lake build PdshVerif.Props.C18 && #print axioms on every theorem of Props/C18.lean")
 
